@@ -263,10 +263,12 @@ class PyAlg:
         elif isinstance(r, (float, complex)):
             try:
                 a = abs(r)
-                if a == a and a != float("inf") and a > cls.fscale:
+                if a != a or a == float("inf"):
+                    cls.overflow = True       # a non-finite intermediate value: outside every property's domain ("values stay finite")
+                elif a > cls.fscale:
                     cls.fscale = a
             except OverflowError:
-                pass
+                cls.overflow = True
         return r
 
     @staticmethod
